@@ -22,7 +22,7 @@ one() {
   printf '%s\t%s\t%s\t%s\t%s\t%s\t%s\t%s\t%s\t%s\n' "$f" "$idx" "$kind" "$ln" "$fn" "$desc" "$b" "$t" "$fired" "$rules"
   rm -rf "$D"; rmdir "$SLOTS/rlock.$k"
 }
-rm -rf /tmp/dcpverif-scratch/rlock.* 2>/dev/null
+find /tmp/dcpverif-scratch -maxdepth 1 -name "rlock.*" -mmin +15 -exec rm -rf {} + 2>/dev/null
 export -f one
 cat "$TMP/jobs" | tr '\n' '\0' | xargs -0 -P "$W" -I{} bash -c 'one "$@"' _ {} "$TMP" > "$TMP/re"
 cat "$TMP/keep" "$TMP/re" | sort -t$'\t' -k1,1 -k2,2n > "$OUT"
